@@ -41,7 +41,7 @@ func (s *State) evalUnquoteCalls(quoted ast.Node) ast.Node {
 // feels like we should merge ast and object and avoid these?
 func convertObjectToASTNode(obj object.Object) ast.Node {
 	// TODD: more types
-	switch obj := obj.(type) {
+	switch obj := object.Value(obj).(type) { // the value of a reference or register, like everywhere else.
 	case object.Integer:
 		t := token.Intern(token.INT, strconv.FormatInt(obj.Value, 10))
 		r := ast.IntegerLiteral{Val: obj.Value}
